@@ -334,6 +334,7 @@ BW_MidiSequencer::BW_MidiSequencer() :
     m_postSongWaitDelay(1.0),
     m_loopStartTime(-1.0),
     m_loopEndTime(-1.0),
+    m_loopStartAtSongBegin(true),
     m_tempoMultiplier(1.0),
     m_atEnd(false),
     m_loopCount(-1),
@@ -590,6 +591,7 @@ void BW_MidiSequencer::buildSmfSetupReset(size_t trackCount)
     m_fullSongTimeLength = 0.0;
     m_loopStartTime = -1.0;
     m_loopEndTime = -1.0;
+    m_loopStartAtSongBegin = true;
     m_loopFormat = Loop_Default;
     m_trackDisable.clear();
     std::memset(m_channelDisable, 0, sizeof(m_channelDisable));
@@ -869,6 +871,10 @@ bool BW_MidiSequencer::buildSmfTrackData(const std::vector<std::vector<uint8_t> 
     }
 
     buildTimeLine(temposList, loopStartTicks, loopEndTicks);
+
+    // Without a valid loopStart marker the loop begins together with the song
+    m_loopStartAtSongBegin = (m_loop.invalidLoop || !gotGlobalLoopStart);
+    m_loop.caughtStart = m_loopStartAtSongBegin;
 
     return true;
 }
@@ -1452,12 +1458,16 @@ bool BW_MidiSequencer::processEvents(bool isSeek)
         {
             m_currentPosition = m_trackBeginPosition;
             m_loop.temporaryBroken = false;
+            // The beginning of the song is the loop start when no marker says otherwise
+            m_loop.caughtStart = m_loopStartAtSongBegin;
         }
         else if(m_loop.loopsCount < 0 || m_loop.loopsLeft >= 1)
         {
             m_currentPosition = m_loopBeginPosition;
             if(m_loop.loopsCount >= 1)
                 m_loop.loopsLeft--;
+            // A marked loop start is caught again from its marker, an unmarked one is the beginning of the song
+            m_loop.caughtStart = m_loopStartAtSongBegin;
         }
     }
 
@@ -2268,7 +2278,8 @@ void BW_MidiSequencer::rewind()
 
     m_loop.loopsCount = m_loopCount;
     m_loop.reset();
-    m_loop.caughtStart  = true;
+    // A marked loop start is caught from its marker (otherwise a marker at the very beginning is reported twice)
+    m_loop.caughtStart  = m_loopStartAtSongBegin;
     m_loop.temporaryBroken = false;
     m_time.reset();
 }
